@@ -1,9 +1,12 @@
 #!/bin/bash
 # usage: tools/runall.sh [tier] [seed] [parallel] [ids...]   -> runs the checks, one log per check in work/runall/
 tier=${1:-quick}; seed=${2:-1}; par=${3:-4}; shift 3 2>/dev/null
-cd /verif
+here=$(cd "$(dirname "$0")/.." && pwd)
+cd "$here"
+export VERIF_DIR="$here"
 ids="$@"
 [ -z "$ids" ] && ids=$(python3 -c "import json;print(' '.join(c['property_id'] for c in json.load(open('MANIFEST.json'))['checks']))")
 mkdir -p work/runall
 export GOFLAGS=-mod=mod GOWORK=off GOPROXY=off GOSUMDB=off GOTOOLCHAIN=local
-printf '%s\n' $ids | xargs -P $par -I{} sh -c "s=\$(date +%s); bin/vcheck {} --tier $tier --seed $seed > work/runall/{}.$tier.s$seed.log 2>&1; rc=\$?; e=\$(date +%s); echo \"{} rc=\$rc \$((e-s))s \$(grep -c '^VIOLATION' work/runall/{}.$tier.s$seed.log) viol \$(grep -c '^KNOWN-FINDING' work/runall/{}.$tier.s$seed.log) known \$(grep -c '^INCONCLUSIVE' work/runall/{}.$tier.s$seed.log) incon\""
+[ -x bin/vcheck ] || go build -o bin/vcheck ./cmd/vcheck || exit 2
+printf '%s\n' $ids | xargs -P $par -I{} sh -c "s=\$(date +%s); bin/vcheck {} --tier $tier --seed $seed > work/runall/{}.$tier.s$seed.log 2>&1; rc=\$?; e=\$(date +%s); echo \"{} rc=\$rc \$((e-s))s \$(grep -c '^VIOLATION' work/runall/{}.$tier.s$seed.log) viol \$(grep -c '^KNOWN-FINDING' work/runall/{}.$tier.s$seed.log) known \$(grep -c '^INCONCLUSIVE' work/runall/{}.$tier.s$seed.log) incon\"; grep -E '^(VIOLATION|ERROR|  signature)' work/runall/{}.$tier.s$seed.log | cut -c1-220 | head -8"
